@@ -47,6 +47,8 @@ FRAMES = {
     "mokapot.confidence.assign_confidence": {},
     "mokapot.confidence.create_sorted_file_iterator": {},
     "mokapot.picked_protein.picked_protein": {},
+    "mokapot.picked_protein.group_without_decoys": {},
+    "mokapot.picked_protein.group_with_decoys": {},
     "mokapot.parsers.fasta._group_proteins": {
         "HASHSEED": "iterates sets of protein names; the grouping as SETS is order independent (C16, bounded)"},
 }
@@ -55,8 +57,8 @@ FRAMES = {
 FRAMES_BY_DESIGN = {
     "mokapot.parsers.fasta._shuffle_proteins": {"GLOBAL_RNG": "np.random.permutation: decoy shuffling uses the "
                                                                "global RNG, seeded by the CLI (np.random.seed)"},
-    "mokapot.peptides.match_decoy": {"GLOBAL_RNG": "targets.sample(frac=1): global RNG, seeded by the CLI; with a "
-                                                   "target-only FASTA this is a known finding (hash-seed dependent "
-                                                   "key order feeds it)"},
+    "mokapot.peptides.match_decoy": {"GLOBAL_RNG": "targets.sample(frac=1): global RNG, seeded by the CLI; its "
+                                                   "input order is hash-seed independent since repo fix 0aea7e5 "
+                                                   "(sorted target peptides)"},
 }
 BOUNDED = {"module": "harness.c08"}
